@@ -216,6 +216,29 @@ def body_exponential(n):
     return body, [ExponentialCoalescent.log_prob]
 
 
+def log_congruence_lemmas(d, goal, hyps, t_budget=6.0):
+    """Equalities a == b between arguments of log(.) inside `goal` that the solver proves under `hyps`
+    (candidates: pairs with the same witness value).  Only PROVED equalities are returned."""
+    from symtorch.explore import prove
+
+    args = {}
+    for nd in d.topo([goal]):
+        if d.ops[nd] == 'uf' and d.args[nd][0] == 'log':
+            a = d.args[nd][1]
+            args.setdefault(round(float(d.vals[a]), 10), set()).add(a)
+    out = []
+    for grp in args.values():
+        grp = sorted(grp)
+        for b in grp[1:]:
+            e = d.eq(grp[0], b)
+            if e == d.TRUE:
+                continue
+            st, _, _ = prove(d, hyps, e, timeout=t_budget, solvers=('z3', 'z3new'), parallel=True)
+            if st == 'proved':
+                out.append(e)
+    return out
+
+
 def body_plinear(n, G):
     from torchtree.evolution.coalescent import PiecewiseLinearCoalescentGrid
 
@@ -244,8 +267,22 @@ def body_plinear(n, G):
 
         orc = kingman_oracle(S, C, gr[1:], integ, lambda p, c: sym_log(N(p, c)))
         goal = d.eq(int(impl._ids.reshape(-1)[0]), SymFloat._id(orc))
-        return [Goal('piecewise-linear: log_prob == Kingman', goal, hyps=ground_axioms(d, [goal]),
-                     signature='PiecewiseLinearCoalescentGrid.log_prob')]
+        # lemma chaining: implementation and oracle write the interpolated population sizes differently; each pair
+        # of log arguments that agrees at the witness is first proved equal on this region (a rational identity),
+        # the proved equalities then let the solver close the uninterpreted logs by congruence
+        basic = [d.lt(0, V[f'theta{k}']) for k in range(G + 1)] + [d.lt(0, V['g0'])] + \
+                [d.lt(V[f'g{k - 1}'], V[f'g{k}']) for k in range(1, G)]
+        lemmas = log_congruence_lemmas(d, goal, basic + list(t.pcs), t_budget=6.0)
+        # alternative formulation: the goal with every proved-equal sub-term replaced by its representative
+        # (equivalent to the goal under the proved lemmas, which are among its hypotheses)
+        mapping = {d.args[e][1]: d.args[e][0] for e in lemmas if d.ops[e] == 'eq'}
+        alts = []
+        if mapping:
+            g2 = d.substitute([goal], mapping)[0]
+            if g2 != goal:
+                alts.append(g2)
+        return [Goal('piecewise-linear: log_prob == Kingman', goal, hyps=ground_axioms(d, [goal] + alts) + lemmas,
+                     signature='PiecewiseLinearCoalescentGrid.log_prob', alts=alts)]
 
     return body, [PiecewiseLinearCoalescentGrid.log_prob]
 
@@ -425,8 +462,10 @@ def tasks_for(tier):
         plan = [('constant', 3, 0, 60), ('skyride', 3, 0, 60), ('skygrid', 3, 1, 120), ('exponential', 3, 0, 60),
                 ('pexp', 3, 1, 60)]
     else:
-        plan = [('constant', 4, 0, 400), ('skyride', 4, 0, 400), ('skygrid', 3, 2, 400), ('skygrid', 4, 1, 800),
-                ('exponential', 4, 0, 400), ('pexp', 3, 1, 60)]
+        plan = [('constant', 4, 0, 400), ('skyride', 4, 0, 400), ('skygrid', 3, 2, 400), ('skygrid', 4, 1, 1600),
+                ('exponential', 4, 0, 400), ('pexp', 3, 1, 60),
+                # two taxa, two inner grid points: the smallest instance in which a flat inner segment differs from the last one
+                ('plinear', 2, 2, 300)]
     for model, n, G, budget in plan:
         for perm in itertools.permutations(range(n)):
             ts.append((model, n, G, perm, budget))
